@@ -1,6 +1,6 @@
 // C19: ipdict InsertPair/InsertSingle/Sort + IPTable.Search vs model IpDict.v.
-// input : [ [[xS xE]...] [xSingle...] [xProbe...] ]
-// output: [ pairErrs singleErrs s1 s2 final results ]  (see coq/run/RunC19.v)
+// input : [ [[xS xE]...] [xSingle...] [xProbe...] maxSingle noUpdate ]
+// output: [ pairErrs singleErrs s1 s2 final results length ]  (see coq/run/RunC19.v)
 package main
 
 import (
@@ -24,7 +24,7 @@ func load(in hv.Val, withSingles bool) (*ipdict.IPItems, hv.L, hv.L) {
 	parts := hv.AsList(in)
 	pairs := hv.AsList(parts[0])
 	singles := hv.AsList(parts[1])
-	items, err := ipdict.NewIPItems(len(singles), len(pairs)/2)
+	items, err := ipdict.NewIPItems(int(hv.AsInt(parts[3])), len(pairs)/2)
 	if err != nil {
 		panic(err)
 	}
@@ -46,29 +46,31 @@ func load(in hv.Val, withSingles bool) (*ipdict.IPItems, hv.L, hv.L) {
 
 func impl(in hv.Val) hv.Val {
 	parts := hv.AsList(in)
-	if len(parts) != 3 {
+	if len(parts) != 5 {
 		return hv.Err(0)
 	}
 	// (a) the real thing: load, IPItems.Sort(), IPTable.Update, IPTable.Search
 	items, pe, se := load(in, true)
 	items.Sort()
 	final := items.VerifPairs()
+	length := items.Length()
 	tbl := ipdict.NewIPTable()
-	tbl.Update(items)
+	if !hv.AsBool(parts[4]) {
+		tbl.Update(items)
+	}
 	res := hv.L{}
 	for _, q := range hv.AsList(parts[2]) {
 		res = append(res, hv.Bool(tbl.Search(net.IP(hv.AsBytes(q)))))
 	}
-	// (b) what sort.Sort did inside Sort(): sort.Sort is deterministic, so repeating the two calls on a
-	// second copy around the real mergeItems reveals the two sorted arrays (the model does not fix the
-	// order of equal keys; the driver validates these arrays and recomputes everything else).
+	// (b) what sort.Sort did inside Sort(): sort.Sort is deterministic, so repeating the call on a second
+	// copy reveals the sorted array (the model does not fix the order of equal keys; the driver validates it
+	// and recomputes everything else); the real mergeItems on that copy gives the array before the reslice.
 	tr, _, _ := load(in, false)
 	sort.Sort(tr.VerifSortable())
 	s1 := tr.VerifPairs()
 	tr.VerifMergeItems()
-	sort.Sort(tr.VerifSortable())
 	s2 := tr.VerifPairs()
-	return hv.L{pe, se, encPairs(s1), encPairs(s2), encPairs(final), res}
+	return hv.L{pe, se, encPairs(s1), encPairs(s2), encPairs(final), res, hv.I(length)}
 }
 
 func badLen(r *hv.Rng) int { return []int{0, 1, 3, 5, 15, 17}[r.Intn(6)] }
@@ -185,6 +187,9 @@ func gen(r *hv.Rng, i int, tier string) (string, hv.Val) {
 		b := bases[r.Intn(nb)]
 		var s, e addr
 		switch {
+		case k > 1 && r.Chance(1, 8): // umbrella: small start, reaches over several earlier ranges
+			s = b.add(r.Intn(3))
+			e = b.add(sp/2 + r.Intn(sp))
 		case k > 0 && r.Chance(1, 6): // nested in / adjacent to / same start as the previous one
 			switch r.Intn(4) {
 			case 0:
@@ -224,11 +229,21 @@ func gen(r *hv.Rng, i int, tier string) (string, hv.Val) {
 			}
 		}
 		s.v4, e.v4 = r.Bool(), r.Bool()
-		if r.Chance(1, 40) { // malformed: swapped bounds or a bad length
-			if r.Bool() {
-				s, e = e, s
-			} else {
+		if r.Chance(1, 30) { // rejected by checkIPPair: every error branch
+			switch r.Intn(5) {
+			case 0:
+				s, e = e, s // start > end (unless equal)
+			case 1:
 				pairs = append(pairs, hv.L{hv.B(r.Bytes(badLen(r))), hv.B(e.bytes())})
+				continue
+			case 2:
+				pairs = append(pairs, hv.L{hv.B(s.bytes()), hv.B(r.Bytes(badLen(r)))})
+				continue
+			case 3: // IPv4 start, non-IPv4 end
+				pairs = append(pairs, hv.L{hv.B(addr{0, z4 + uint64(r.Intn(50)), r.Bool()}.bytes()), hv.B(addr{1, uint64(r.Intn(50)), false}.bytes())})
+				continue
+			default: // non-IPv4 start, IPv4 end
+				pairs = append(pairs, hv.L{hv.B(addr{0, uint64(r.Intn(50)), false}.bytes()), hv.B(addr{0, z4 + uint64(r.Intn(50)), r.Bool()}.bytes())})
 				continue
 			}
 		}
@@ -240,9 +255,18 @@ func gen(r *hv.Rng, i int, tier string) (string, hv.Val) {
 		}
 	}
 	singles := hv.L{}
-	for k := r.Intn(5); k > 0; k-- {
+	nsing := r.Intn(5)
+	if r.Chance(1, 10) {
+		nsing = r.Range(5, 9)
+	}
+	var lastSingle addr
+	for k := nsing; k > 0; k-- {
 		a := bases[r.Intn(nb)].add(r.Intn(sp))
+		if k < nsing && r.Chance(1, 4) {
+			a = lastSingle // duplicate single (4-/16-byte form may differ)
+		}
 		a.v4 = r.Bool()
+		lastSingle = a
 		if r.Chance(1, 20) {
 			singles = append(singles, hv.B(r.Bytes(badLen(r))))
 			continue
@@ -250,6 +274,13 @@ func gen(r *hv.Rng, i int, tier string) (string, hv.Val) {
 		singles = append(singles, hv.B(a.bytes()))
 		addProbe(a)
 	}
+	// NewIPItems(maxSingle, ..): the set takes maxSingle+1 distinct addresses; below that InsertSingle fails
+	maxSingle := len(singles)
+	if len(singles) > 0 && r.Chance(1, 4) {
+		maxSingle = r.Intn(len(singles))
+		class += "-full"
+	}
+	noUpdate := r.Chance(1, 50)
 	for k := r.Range(2, 10); k > 0; k-- {
 		a := bases[r.Intn(nb)].add(r.Intn(sp*2) - sp/2)
 		a.v4 = r.Bool()
@@ -263,7 +294,10 @@ func gen(r *hv.Rng, i int, tier string) (string, hv.Val) {
 	} else if n > 12 {
 		class += "-pdq"
 	}
-	return class, hv.L{pairs, singles, probes}
+	if noUpdate {
+		class = "triv-noupdate"
+	}
+	return class, hv.L{pairs, singles, probes, hv.I(maxSingle), hv.Bool(noUpdate)}
 }
 
 func main() {
